@@ -74,6 +74,9 @@ where
             rep.sample(to_json(sc));
         }
         if let Err(what) = out.verdict {
+            if args.verbose {
+                eprintln!("FAIL tags={:?} class={}", out.tags, out.class);
+            }
             rep.violation(Violation { what, scenario: to_json(sc), tags: out.tags });
         }
     });
